@@ -29,7 +29,7 @@ func init() {
 	Register("C33", &Info{
 		Run:   runC33,
 		Quick: 10000, Thor: 1000000,
-		Rule: "a world = one fingerprint (every parrot by stratum, randomized, generated specs, HelloGolang) and version, whose peer is made hostile in one of two ways: (a) the server's byte stream is corrupted at the transport - bit flips, byte runs overwritten with drawn garbage, truncation, reset, an oversized record header, random records injected - at an offset drawn over the whole server flight and the first application records; (b) the reference server mutates one plaintext handshake message before hashing and encrypting it (ServerHello incl. HelloRetryRequest with cookie, EncryptedExtensions incl. ALPS, Certificate, CompressedCertificate, CertificateVerify, Finished, NewSessionTicket, TLS 1.2 ServerKeyExchange/ServerHelloDone): byte flips, truncation, extension, inner length fields set to extreme values, with the outer length fixed up or not, or a CompressedCertificate whose stream is valid up to the declared length and then goes on decompressing into 48 MB; (c) every fifth world: the reference server completes a genuine handshake and then misbehaves under the negotiated keys - floods of zero-length application_data records (10 .. 150000), KeyUpdate storms with and without update_requested, unexpected handshake messages of drawn types - optionally while the client's own transport writes fail once, fail for good, or block (peer stops reading); the client then keeps using the connection (Read x3, Write, Read, Close); the client runs Handshake and then Read under a 30 s deadline; oracle: no panic in any task, the world neither deadlocks nor hits the step cap and every client call returns by the deadline, and the bytes allocated while the connection runs stay below 6 MB (the largest legitimate message is a 256 kB certificate message); non-trivial = the mutated bytes were consumed by the client; distinct = (fingerprint, hostile mode, target, mutation, offset class)",
+		Rule: "a world = one fingerprint (every parrot by stratum, randomized, generated specs, HelloGolang) and version, whose peer is made hostile in one of two ways: (a) the server's byte stream is corrupted at the transport - bit flips, byte runs overwritten with drawn garbage, truncation, reset, an oversized record header, random records injected - at an offset drawn over the whole server flight and the first application records; (b) the reference server mutates one plaintext handshake message before hashing and encrypting it (ServerHello incl. HelloRetryRequest with cookie, EncryptedExtensions incl. ALPS, Certificate, CompressedCertificate, CertificateVerify, Finished, NewSessionTicket, TLS 1.2 ServerKeyExchange/ServerHelloDone): byte flips, truncation, extension, inner length fields set to extreme values, with the outer length fixed up or not, a well-formed but unsolicited extension of a drawn known type (early_data, cookie, key_share, pre_shared_key, ALPS, ECH, ...) inserted into the extension block of ServerHello / EncryptedExtensions / Certificate entry / CertificateRequest / NewSessionTicket with every enclosing length fixed up, (every tenth world enumerates message type x extension code point x body shape by run index) or a CompressedCertificate whose stream is valid up to the declared length and then goes on decompressing into 48 MB; (c) every fifth world: the reference server completes a genuine handshake and then misbehaves under the negotiated keys - floods of zero-length application_data records (10 .. 150000), KeyUpdate storms with and without update_requested, unexpected handshake messages of drawn types - optionally while the client's own transport writes fail once, fail for good, or block (peer stops reading); the client then keeps using the connection (Read x3, Write, Read, Close); the client runs Handshake and then Read under a 30 s deadline; oracle: no panic in any task, the world neither deadlocks nor hits the step cap and every client call returns by the deadline, and the bytes allocated while the connection runs stay below 6 MB (the largest legitimate message is a 256 kB certificate message); non-trivial = the mutated bytes were consumed by the client; distinct = (fingerprint, hostile mode, target, mutation, offset class)",
 		Assumptions: []string{"mutation-based, not coverage-guided", "the worker process runs with a 32 MB goroutine stack limit (debug.SetMaxStack)", "allocation is measured as runtime.MemStats.TotalAlloc growth of the whole worker process during the world (client, server and harness together)"},
 		Real:        []string{"utls client from /repo"},
 		Stub:        []string{"hostile peers: corrupted utls/std server streams; reference server with message mutation", "transport, clock, crypto/rand"},
@@ -113,6 +113,124 @@ func mutateBytes(ch *simrt.Chooser, b []byte, fixLen bool) ([]byte, string) {
 	return m, desc
 }
 
+// knownExtTypes: extension code points the client-side parsers know, plus private ones.
+var knownExtTypes = []uint16{0, 1, 5, 10, 11, 13, 16, 17, 18, 21, 22, 23, 27, 28, 34, 35, 41, 42, 43, 44, 45, 47, 49, 50, 51, 57,
+	13172, 17513, 17613, 0xfe0d, 0xff01, 0xfd00, 0x0a0a, 0x4444}
+
+// extBlockAt returns the offset of the 2-byte extensions length in handshake message m of type t
+// (TLS 1.3 layouts; ServerHello is the same in every version), or -1. For a Certificate message
+// it is the extension block of the first entry.
+func extBlockAt(t uint8, m []byte) int {
+	p := 4
+	need := func(n int) bool { return p+n <= len(m) }
+	switch t {
+	case 2: // ServerHello / HelloRetryRequest
+		if !need(2 + 32 + 1) {
+			return -1
+		}
+		p += 2 + 32
+		p += 1 + int(m[p])
+		p += 2 + 1
+		if p == len(m) {
+			return p // no extension block yet (TLS <= 1.2): one is appended
+		}
+	case 8: // EncryptedExtensions
+	case 4: // NewSessionTicket (TLS 1.3)
+		if !need(4 + 4 + 1) {
+			return -1
+		}
+		p += 8
+		p += 1 + int(m[p])
+		if !need(2) {
+			return -1
+		}
+		p += 2 + (int(m[p])<<8 | int(m[p+1]))
+	case 13: // CertificateRequest (TLS 1.3)
+		if !need(1) {
+			return -1
+		}
+		p += 1 + int(m[p])
+	case 11: // Certificate (TLS 1.3): first entry
+		if !need(1) {
+			return -1
+		}
+		p += 1 + int(m[p])
+		p += 3
+		if !need(3) {
+			return -1
+		}
+		p += 3 + (int(m[p])<<16 | int(m[p+1])<<8 | int(m[p+2]))
+	default:
+		return -1
+	}
+	if p == len(m) && t == 2 {
+		return p
+	}
+	if p+2 > len(m) {
+		return -1
+	}
+	if p+2+(int(m[p])<<8|int(m[p+1])) > len(m) {
+		return -1
+	}
+	return p
+}
+
+// addExtension inserts one extension (drawn type, drawn short body) at the front or the end of the
+// message's extension block and fixes the block length, the Certificate list length and the
+// handshake length.
+func addExtension(ch *simrt.Chooser, t uint8, m []byte, forcedType, forcedBody int) ([]byte, string, bool) {
+	at := extBlockAt(t, m)
+	if at < 0 {
+		return nil, "", false
+	}
+	et := knownExtTypes[ch.Pick(len(knownExtTypes), "ext-type")]
+	body := make([]byte, []int{0, 0, 1, 2, 4, 8, 33}[ch.Pick(7, "ext-body-len")])
+	ch.Bytes(body, "ext-body")
+	if ch.Bool(40, "ext-body-zero") {
+		for i := range body {
+			body[i] = 0
+		}
+	}
+	if forcedType >= 0 {
+		et = uint16(forcedType)
+		switch forcedBody {
+		case 0:
+			body = nil
+		case 1:
+			body = []byte{0}
+		case 2:
+			body = []byte{0, 0}
+		default:
+			body = body[:0]
+			body = append(body, 0, 2, byte(et>>8), byte(et)) // a 16-bit vector holding two bytes
+		}
+	}
+	ext := append([]byte{byte(et >> 8), byte(et), byte(len(body) >> 8), byte(len(body))}, body...)
+	var out []byte
+	if at == len(m) {
+		out = append(append([]byte(nil), m...), byte(len(ext)>>8), byte(len(ext)))
+		out = append(out, ext...)
+	} else {
+		bl := int(m[at])<<8 | int(m[at+1])
+		ins := at + 2
+		if ch.Bool(50, "ext-at-end") {
+			ins = at + 2 + bl
+		}
+		out = append(append(append([]byte(nil), m[:ins]...), ext...), m[ins:]...)
+		nl := bl + len(ext)
+		out[at], out[at+1] = byte(nl>>8), byte(nl)
+		if t == 11 {
+			// certificate_list length sits after the request context
+			lp := 4 + 1 + int(m[4])
+			ll := (int(m[lp])<<16 | int(m[lp+1])<<8 | int(m[lp+2])) + len(ext)
+			out[lp], out[lp+1], out[lp+2] = byte(ll>>16), byte(ll>>8), byte(ll)
+		}
+	}
+	n := len(out) - 4
+	out[1], out[2], out[3] = byte(n>>16), byte(n>>8), byte(n)
+	return out, fmt.Sprintf("add-extension type=%d len=%d", et, len(body)), true
+}
+
 func memNow() uint64 {
 	var ms runtime.MemStats
 	runtime.ReadMemStats(&ms)
@@ -154,6 +272,17 @@ func runC33(c *Ctx) {
 	}
 	mode := []string{"transport", "mutate", "mutate"}[ch.Pick(3, "mode")]
 	srvMax := []uint16{tls.VersionTLS13, tls.VersionTLS13, tls.VersionTLS12, tls.VersionTLS11}[ch.Pick(4, "srvmax")]
+	// every tenth world belongs to the enumerated stratum of structure-aware mutations: message
+	// type x extension code point x body shape are taken from the run index, so that every
+	// combination occurs in every quick batch
+	combo := int64(-1)
+	if c.Run%10 == 7 {
+		combo = c.Run / 10
+		mode = "mutate"
+		if [...]uint8{2, 8, 4, 13, 11}[combo%5] != 2 || combo%2 == 0 {
+			srvMax = tls.VersionTLS13
+		}
+	}
 	w := c.NewWorld(simrt.Config{StepCap: 50000})
 	ccfg := negCfg()
 	ccfg.MinVersion = tls.VersionTLS10
@@ -273,8 +402,21 @@ func runC33(c *Ctx) {
 		if extras == 3 && ch.Bool(50, "target-ee") {
 			target = 8
 		}
+		forcedType, forcedBody := -1, -1
+		if combo >= 0 {
+			target = [...]uint8{2, 8, 4, 13, 11}[combo%5]
+			forcedType = int(knownExtTypes[(combo/5)%int64(len(knownExtTypes))])
+			forcedBody = int((combo / 5 / int64(len(knownExtTypes))) % 4)
+			if target == 13 {
+				cfg.ClientAuth = refsrv.RequestClientCert
+			}
+		}
 		nth := ch.Pick(2, "nth") // which occurrence of that type (ServerHello: 0 = HRR when present)
 		fix := ch.Bool(60, "fixlen")
+		// structure-aware mutation: a well-formed extension the client did not ask for is inserted
+		// into the message's extension block and every enclosing length is fixed up, so that the
+		// message parses and the extension reaches the code that interprets it
+		structured := ch.Bool(35, "structured") || combo >= 0
 		seen := 0
 		mdesc := "unapplied"
 		applied := false
@@ -289,6 +431,12 @@ func runC33(c *Ctx) {
 				return m
 			}
 			applied = true
+			if structured {
+				if out, d, ok := addExtension(sub, t, m, forcedType, forcedBody); ok {
+					mdesc = d
+					return out
+				}
+			}
 			out, d := mutateBytes(sub, m, fix)
 			mdesc = d
 			return out
